@@ -461,16 +461,16 @@ def walk_step_rules(chk, p, ps):
                 d["wild"] = flow.lab_true(l)
             elif t[0] == "binop" and t[1] == "Eq" and set(t[2:4]) == {IN(lo), IN(hi)}:
                 d["empty"] = flow.lab_true(l)
-            elif t[0] == "discr" and _isc(t[1], "ListProvider::find"):
-                d["found"] = l == ("in", "1")
-                f = t[1]
+            elif flow.tests_presence_of(t, lambda x: _isc(x, "ListProvider::find")):
+                d["found"] = flow.asserts_ok(t, l, lambda x: _isc(x, "ListProvider::find"))
+                f = [x for x in flow._subjects(flow.presence_test(t, l)[0], True) if _isc(x, "ListProvider::find")][0]
                 d["find_args_ok"] = len(f[2]) == 4 and _isc(f[2][1], "Index::index") and f[2][1][2][0] == IN(s_l) and at_label(f[2][1][2][1]) and f[2][2] == IN(lo) and f[2][3] == IN(hi)
             elif is_normal(t):
                 d["normal"] = flow.lab_true(l)
             elif is_exc(t):
                 d["exc"] = flow.lab_true(l)
-            elif t[0] == "discr" and dot(t[1]):
-                d["dot"] = l == ("in", "1")
+            elif flow.tests_presence_of(t, dot):
+                d["dot"] = flow.asserts_ok(t, l, dot)
         return d
 
     bad = {k: [] for k in ("d1", "d2", "d3", "d4", "d5", "d6", "d7")}
@@ -496,7 +496,7 @@ def walk_step_rules(chk, p, ps):
         if r["kind"] == "continue":
             ok = c["empty"] is False and c["found"] and c.get("find_args_ok") and c["dot"] and not (c["exc"] and not c["normal"])
             st = r["state"]
-            ok = ok and _isc(st[s_l], "Index::index") and st[s_l][2][0] == IN(s_l) and _has(st[s_l][2][1], lambda x: isinstance(x, tuple) and len(x) == 3 and x[0] == "field" and x[2] == "0" and x[1][0] == "field" and dot(x[1][1]))
+            ok = ok and _isc(st[s_l], "Index::index") and st[s_l][2][0] == IN(s_l) and _has(st[s_l][2][1], lambda x: flow.is_payload_of(x, dot))
             ok = ok and _has(st[lo], cn("CHILDREN")) and _has(st[hi], cn("CHILDREN")) and _has(st[wl], cn("CHILDREN")) and _has(st[lo], lambda x: _isc(x, "ListProvider::find") or x == ("field", ("field", ("call",), ""), "")) is not None
             if not ok:
                 bad["d5"].append(desc)
